@@ -323,6 +323,41 @@ pub fn run() {
                         st.get_all_connection_summary().await.map(count).unwrap_or(0)
                     )
                 }
+                ["pqhook", f] => {
+                    // on the next read a provisioning query makes (GetProvisionFinished / GetState): a readiness report from another
+                    // task arrives while the actor is held for a moment, so that it is handled before the query's next read
+                    let what = f.to_string();
+                    let ct = shared_state.get_cancellation_token();
+                    let tl = shared_state.get_telemetry_shared_state();
+                    let pv = shared_state.get_provision_shared_state();
+                    let kk2 = kk.clone();
+                    let st2 = st.clone();
+                    let handle = tokio::runtime::Handle::current();
+                    let mut fired = false;
+                    crate::shared_state::verif_actor::set_hook(Some(Box::new(move |actor, kind| {
+                        if actor == "provision" && !fired && (kind == "GetProvisionFinished" || kind == "GetState") {
+                            fired = true;
+                            let (ct, tl, pv, kk3, st3, what) = (ct.clone(), tl.clone(), pv.clone(), kk2.clone(), st2.clone(), what.clone());
+                            handle.spawn(async move {
+                                match what.as_str() {
+                                    "r" => crate::provision::redirector_ready(ct, kk3, tl, pv, st3).await,
+                                    "k" => crate::provision::key_latched(ct, kk3, tl, pv, st3).await,
+                                    _ => crate::provision::listener_started(ct, kk3, tl, pv, st3).await,
+                                }
+                            });
+                            std::thread::sleep(std::time::Duration::from_millis(40));
+                        }
+                    })));
+                    "ok".into()
+                }
+                ["slowall", us] => {
+                    // a schedule in which every actor is slow: each message any of them handles takes `us` microseconds longer
+                    let us: u64 = us.parse().unwrap();
+                    crate::shared_state::verif_actor::set_hook(Some(Box::new(move |_actor, _kind| {
+                        std::thread::sleep(std::time::Duration::from_micros(us));
+                    })));
+                    "ok".into()
+                }
                 ["shook", us] => {
                     // a schedule in which the status actor is a slow consumer of connection summaries: each takes `us` microseconds longer
                     let us: u64 = us.parse().unwrap();
